@@ -147,6 +147,7 @@ def gen_cases(rng, tier: str) -> list[dict]:
     # a node whose operands are one and the same object, against the same node with only one side changed (a comparison
     # that takes a shortcut when `left is right` must still look at the other side of the other node)
     g = gen.Gen(rng, names=("x", "y"))
+    fam = []
     for _ in range(common.sizes(tier, 12, 120)):
         s_ = g.expr(rng.choice([0, 1, 2]))
         kind, t = mutate(s_, rng)
@@ -157,9 +158,9 @@ def gen_cases(rng, tier: str) -> list[dict]:
             for m, side in ((K(s_, t), "right"), (K(t, s_), "left"), (K(t, t), "both")):
                 wrap = rng.random() < 0.3
                 aa, mm = (X.Sine(a), X.Sine(m)) if wrap else (a, m)
-                cases.append({"origin": "shared-operands", "a": wire.expr(aa), "b": wire.expr(respell(aa, rng)), "c": wire.expr(respell(aa, rng)),
+                fam.append({"origin": "shared-operands", "a": wire.expr(aa, ids={}), "b": wire.expr(respell(aa, rng)), "c": wire.expr(respell(aa, rng)),
                               "m": wire.expr(mm), "mkind": "shared-operand-" + side})
-    return cases
+    return fam + cases       # the directed family first: it must not fall to the time budget
 
 
 def same_bool(x) -> bool:
